@@ -1,6 +1,7 @@
 package rules
 
 import (
+	"go/token"
 	"fmt"
 	"go/types"
 	"sort"
@@ -255,6 +256,27 @@ func c06(r *core.Run) {
 				return
 			}
 			sp := p.ProvAt(seed.Call.Args[1], "", seed)
+			// the seed handed in by the callers of a shuffling helper: judged at every call site
+			for hop := 0; hop < 3; hop++ {
+				next := core.Prov{}
+				changed := false
+				for k, a := range sp {
+					if a.Kind == "param" && a.Fn.Signature.Recv() == nil && len(p.CG().In[a.Fn]) > 0 {
+						if up := p.CallerArgProv(a.Fn, a.Idx, a.Path); len(up) > 0 {
+							for k2, a2 := range up {
+								next[k2] = a2
+							}
+							changed = true
+							continue
+						}
+					}
+					next[k] = a
+				}
+				sp = next
+				if !changed {
+					break
+				}
+			}
 			okSeed := true
 			var srcs []string
 			for _, a := range sp {
@@ -435,20 +457,47 @@ func mapRangeOrderSensitive(p *core.Program, fn *ssa.Function, rg *ssa.Range) st
 		}
 		for _, in := range b.Instrs {
 			switch x := in.(type) {
-			case *ssa.Next, *ssa.Extract, *ssa.Phi, *ssa.If, *ssa.Jump, *ssa.MapUpdate, *ssa.Lookup, *ssa.BinOp, *ssa.UnOp, *ssa.DebugRef, *ssa.Convert, *ssa.ChangeType, *ssa.FieldAddr, *ssa.Field:
+			case *ssa.BinOp:
+				// integer accumulation commutes; string concatenation does not
+				if bt, ok := x.Type().Underlying().(*types.Basic); ok && bt.Info()&types.IsString != 0 && x.Op == token.ADD {
+					return "it concatenates strings in iteration order @" + p.InstrPos(in)
+				}
+			case *ssa.Next, *ssa.Extract, *ssa.Phi, *ssa.If, *ssa.Jump, *ssa.MapUpdate, *ssa.Lookup, *ssa.UnOp, *ssa.DebugRef, *ssa.Convert, *ssa.ChangeType, *ssa.FieldAddr, *ssa.Field:
 			case *ssa.IndexAddr:
+				if al, local := x.X.(*ssa.Alloc); local && (al.Block() == b || core.SameLoop(al.Block(), next.Block())) {
+					continue // an array created in this iteration (the variadic argument of append)
+				}
 				// element address of a slice: the slice must be sorted before use
-				if !sliceSortedLater(p, fn, x.X) {
+				if !sliceSortedLater(p, fn, x.X, nil) {
 					return "it fills a slice in iteration order without sorting it @" + p.InstrPos(in)
 				}
 			case *ssa.Store:
+				// a store into memory created in this iteration (a local, a composite literal, append's variadic array)
+				root := x.Addr
+				for {
+					if fa, ok := root.(*ssa.FieldAddr); ok {
+						root = fa.X
+						continue
+					}
+					if ia, ok := root.(*ssa.IndexAddr); ok {
+						if _, isAlloc := ia.X.(*ssa.Alloc); isAlloc {
+							root = ia.X
+							continue
+						}
+					}
+					break
+				}
+				if al, ok := root.(*ssa.Alloc); ok {
+					// a plain local variable, or memory created in this very iteration; an array / record that outlives
+					// the iteration and is filled element by element is order-sensitive
+					if root == x.Addr || al.Block() == b || core.SameLoop(al.Block(), next.Block()) {
+						continue
+					}
+				}
 				if ia, ok := x.Addr.(*ssa.IndexAddr); ok {
-					if !sliceSortedLater(p, fn, ia.X) {
+					if !sliceSortedLater(p, fn, ia.X, nil) {
 						return "it fills a slice in iteration order without sorting it @" + p.InstrPos(in)
 					}
-					continue
-				}
-				if _, ok := x.Addr.(*ssa.Alloc); ok {
 					continue
 				}
 				return "it stores into shared memory @" + p.InstrPos(in)
@@ -460,7 +509,7 @@ func mapRangeOrderSensitive(p *core.Program, fn *ssa.Function, rg *ssa.Range) st
 						continue
 					case "append":
 						v, _ := x.(ssa.Value)
-						if v != nil && sliceSortedLater(p, fn, v) {
+						if v != nil && sliceSortedLater(p, fn, v, keyFieldsOfAppend(x, next)) {
 							continue
 						}
 						return "it appends to a slice in iteration order without sorting it @" + p.InstrPos(in)
@@ -482,7 +531,56 @@ func mapRangeOrderSensitive(p *core.Program, fn *ssa.Function, rg *ssa.Range) st
 	return ""
 }
 
-func sliceSortedLater(p *core.Program, fn *ssa.Function, sl ssa.Value) bool {
+// keyFieldsOfAppend: the fields of the appended struct element that hold the map key of this iteration (map keys are
+// distinct, so a sort comparing that field of two elements is total).
+func keyFieldsOfAppend(app ssa.CallInstruction, next *ssa.Next) map[int]bool {
+	out := map[int]bool{}
+	args := app.Common().Args
+	if len(args) != 2 {
+		return out
+	}
+	sl, ok := args[1].(*ssa.Slice)
+	if !ok {
+		return out
+	}
+	arr, ok := sl.X.(*ssa.Alloc)
+	if !ok || arr.Referrers() == nil {
+		return out
+	}
+	isKey := func(v ssa.Value) bool {
+		ex, ok := v.(*ssa.Extract)
+		return ok && ex.Tuple == ssa.Value(next) && ex.Index == 1
+	}
+	var scan func(addr ssa.Value)
+	scan = func(addr ssa.Value) {
+		if addr.Referrers() == nil {
+			return
+		}
+		for _, r := range *addr.Referrers() {
+			switch x := r.(type) {
+			case *ssa.IndexAddr:
+				scan(x)
+			case *ssa.FieldAddr:
+				for _, rr := range *x.Referrers() {
+					if st, ok := rr.(*ssa.Store); ok && st.Addr == x && isKey(st.Val) {
+						out[x.Field] = true
+					}
+				}
+			case *ssa.Store:
+				// the element stored as a whole: a composite literal built in a local
+				if ld, ok := x.Val.(*ssa.UnOp); ok && x.Addr == addr {
+					if al, ok := ld.X.(*ssa.Alloc); ok {
+						scan(al)
+					}
+				}
+			}
+		}
+	}
+	scan(arr)
+	return out
+}
+
+func sliceSortedLater(p *core.Program, fn *ssa.Function, sl ssa.Value, keyFields map[int]bool) bool {
 	// the slice value (or the phi web it belongs to) is passed to a sort function in this function
 	seen := map[ssa.Value]bool{}
 	var found bool
@@ -503,7 +601,7 @@ func sliceSortedLater(p *core.Program, fn *ssa.Function, sl ssa.Value) bool {
 			case ssa.CallInstruction:
 				n := core.CalleeFullName(x)
 				if strings.HasPrefix(n, "slices.Sort") || strings.HasPrefix(n, "sort.") {
-					if sortIsTotal(x, n) {
+					if sortIsTotal(x, n, keyFields) {
 						found = true
 					}
 				}
@@ -522,7 +620,7 @@ func sliceSortedLater(p *core.Program, fn *ssa.Function, sl ssa.Value) bool {
 // sortIsTotal: natural-order sorts are total on distinct map keys; comparator-based sorts are accepted only if the
 // comparator compares the two elements themselves (directly, or as slice elements at its two indices) — a
 // comparator that only looks at derived values leaves ties in map-iteration order.
-func sortIsTotal(call ssa.CallInstruction, name string) bool {
+func sortIsTotal(call ssa.CallInstruction, name string, keyFields map[int]bool) bool {
 	base := name
 	if i := strings.Index(base, "["); i >= 0 {
 		base = base[:i]
@@ -558,6 +656,22 @@ func sortIsTotal(call ssa.CallInstruction, name string) bool {
 	isElem := func(v ssa.Value, idx ssa.Value) bool {
 		if v == idx {
 			return true
+		}
+		// the field of the element that holds the (distinct) map key
+		if f, ok := v.(*ssa.Field); ok && f.X == idx && keyFields[f.Field] {
+			return true
+		}
+		if ld, ok := v.(*ssa.UnOp); ok {
+			if fa, ok := ld.X.(*ssa.FieldAddr); ok && keyFields[fa.Field] {
+				if al, ok := fa.X.(*ssa.Alloc); ok {
+					// parameter spilled to a local: its only whole-store is the parameter
+					for _, r := range *al.Referrers() {
+						if st, ok := r.(*ssa.Store); ok && st.Addr == al && st.Val == idx {
+							return true
+						}
+					}
+				}
+			}
 		}
 		if ld, ok := v.(*ssa.UnOp); ok {
 			if ia, ok := ld.X.(*ssa.IndexAddr); ok && ia.Index == idx {
